@@ -152,6 +152,16 @@ def loadOp : Handler := fun args =>
   if getBool args "methods" then outJson (loadThenResolveY cfg penv fs svcs)
   else outJson (loadProjectY cfg penv fs svcs)
 
+/-- model of the decoded `environment` of two services of an *included* file — the same entries in mapping form (`map`)
+    and in sequence form (`seq`) — with the include's env file `ifile` -/
+def incenvOp : Handler := fun args =>
+  let penv := penvOf args
+  let ifile := (getStrMap args "ifile").map fun p => (p.1.toList, p.2.toList)
+  let cfg : LoadCfg := { skipNormalization := getBool args "skip_normalization", skipResolveEnvironment := true, discard := false }
+  let kvs := pairsOpt args "entries"
+  Json.mkObj [("map", mweJson (loadedEnvIncluded cfg penv ifile (.map kvs))),
+              ("seq", mweJson (loadedEnvIncluded cfg penv ifile (YEnv.asList kvs)))]
+
 /-! ### specification op (direct oracle) -/
 open CV.EnvLayers.Spec
 
@@ -200,6 +210,6 @@ def specOp : Handler := fun args =>
         | some v => some (String.ofList k, str v)))]
 
 def handlers : List (String × Handler) :=
-  [("c16.env", envOp), ("c16.labels", labelsOp), ("c16.resolve", resolveOp), ("c16.load", loadOp), ("c16.spec", specOp)]
+  [("c16.env", envOp), ("c16.labels", labelsOp), ("c16.resolve", resolveOp), ("c16.load", loadOp), ("c16.spec", specOp), ("c16.incenv", incenvOp)]
 
 end CV.Ops.C16
